@@ -16,9 +16,9 @@ CHUNK = 6
 
 def plan(ctx):
     items = []
-    for i in range(ctx.n(2200, 50000)):
+    for i in range(ctx.n(6000, 100000)):
         items.append(('gen', engine.stable_hash((ctx.seed, 'c02', i))))
-    for i in range(ctx.n(300, 6000)):
+    for i in range(ctx.n(500, 8000)):
         items.append(('real', engine.stable_hash((ctx.seed, 'c02r', i))))
     return items
 
